@@ -621,7 +621,7 @@ theorem changeKey_sim (hc : LawfulCmp cmp) {eq : V → V → Bool} {cap : Nat} {
     · rw [hn3, hn2, h1n]; exact w3
     · rw [hn3]; exact hord3
     · rw [hn3, hn2, h1n, habs, Spec.card_set_some_old _ _ hrange ha, ← inv.card]
-    · rw [habs]; exact .changeKey_ok ha
+    · rw [habs]; exact .changeKey_ok ha (Or.inl rfl)
 
 /-- `h.n--` -/
 def decN (h : IBinary K V) : IBinary K V := { h with n := h.n - 1 }
